@@ -39,6 +39,45 @@ var tokenVocab = []string{"struct", "message", "enum", "union", "const", "readon
 	"int32", "string", "Foo", "a", "1", "0x1", "-1", "1.5", "\"s\"", "{", "}", "[", "]", "(", ")", ";", ",", "=", "->", ":", "|", "&", "<<", ">>", "\n",
 	"// c\n", "/* c */", "inf", "true"}
 
+// lexPieces are the characters number, string and comment lexemes are made of: strings over
+// them are what a tokenizer's look-ahead and push-back logic has to survive.
+var lexPieces = []string{"0", "1", "9", "e", "E", "+", "-", ".", "x", "_", "f", "i", "n"}
+var lexMore = []string{"\"", "\\", "/", "*", "'", "0x", "inf", "nan", "a", "\n", " ", ">", "<", "|", "&", "(", ")", "#"}
+
+// lexContexts are places where a literal is expected; %s takes the lexeme string.
+var lexContexts = []string{"%s", "const float64 k = %s;\n", "enum E { A = %s; }\n", "message M { %s -> int32 a; }\n", "[flags]\nenum F { A = 1 << %s; B = %s | 1; }\n",
+	"[opcode(%s)]\nstruct S { int32 a; }\n", "const string s = \"%s\";\n", "struct S { [deprecated(\"%s\")] int32 a; }\n", "/* %s */ struct S { int32 a; }\n", "const int64 k = %s"}
+
+// lexString returns the k-th string over lexPieces of length 1..3 (k < lexCount).
+const lexCount = 13 + 13*13 + 13*13*13
+
+func lexString(k int) string {
+	n := len(lexPieces)
+	switch {
+	case k < n:
+		return lexPieces[k]
+	case k < n+n*n:
+		k -= n
+		return lexPieces[k/n] + lexPieces[k%n]
+	}
+	k -= n + n*n
+	return lexPieces[k/(n*n)] + lexPieces[(k/n)%n] + lexPieces[k%n]
+}
+
+func lexSoup(r *prng.Rand) string {
+	var sb strings.Builder
+	for i, n := 0, r.Range(1, 8); i < n; i++ {
+		if r.Chance(3, 4) {
+			sb.WriteString(lexPieces[r.Intn(len(lexPieces))])
+		} else {
+			sb.WriteString(lexMore[r.Intn(len(lexMore))])
+		}
+	}
+	return sb.String()
+}
+
+func inLexContext(ctx, s string) string { return strings.ReplaceAll(ctx, "%s", s) }
+
 // weirdInts are integer literals at and beyond every width's edges.
 var weirdInts = []string{"0", "1", "2", "7", "8", "15", "16", "31", "32", "33", "63", "64", "65", "127", "128", "255", "256", "65535", "65536",
 	"-1", "-2", "-8", "-63", "-64", "-65", "-128", "-129", "-32768", "-32769", "2147483647", "2147483648", "-2147483648", "-2147483649",
@@ -184,7 +223,22 @@ func runC10(c *Ctx) *Replay {
 	var input []byte
 	origin := ""
 	vocabRuns := len(tokenVocab) + len(tokenVocab)*len(tokenVocab)
+	lexRuns := 0
+	if c.N.Batch.Runs >= vocabRuns+3*lexCount {
+		lexRuns = 2 * lexCount
+	}
+	fewFaults := false
 	switch {
+	case lexRuns > 0 && c.Run >= c.N.Batch.Runs-lexRuns:
+		// exhaustive: every string of 1..3 lexeme characters where a literal is expected
+		// (the last runs of the batch; failures of the reader are injected for one in eight)
+		k := c.Run - (c.N.Batch.Runs - lexRuns)
+		input = []byte(inLexContext(lexContexts[1], lexString(k/2)))
+		if k%2 == 1 {
+			input = []byte(lexString(k/2) + " ")
+		}
+		origin = "lex<=3"
+		fewFaults = k%16 > 1
 	case c.Run < vocabRuns:
 		// exhaustive: every token string of length 1 and 2
 		if c.Run < len(tokenVocab) {
@@ -205,7 +259,10 @@ func runC10(c *Ctx) *Replay {
 		input = []byte(padSchema(c.layoutSchema(), (1<<uint(r.Range(16, 22)))+[]int{-1, 0, 1, 17}[r.Intn(4)]))
 		origin = "large"
 	default:
-		switch r.Intn(9) {
+		switch r.Intn(10) {
+		case 9: // lexeme soup where a literal is expected
+			input = []byte(inLexContext(lexContexts[r.Intn(len(lexContexts))], lexSoup(r)))
+			origin = "lexsoup"
 		case 8: // well-formed syntax, arbitrary meaning
 			input = []byte(semanticSoup(r))
 			origin = "semsoup"
@@ -284,7 +341,9 @@ func runC10(c *Ctx) *Replay {
 	}
 	// 2. reader failure at every offset (small inputs), sampled offsets otherwise
 	var offs []int
-	if len(input) <= 400 {
+	if fewFaults {
+		offs = append(offs, r.Intn(len(input)))
+	} else if len(input) <= 400 {
 		for k := 0; k < len(input); k++ {
 			offs = append(offs, k)
 		}
@@ -297,7 +356,7 @@ func runC10(c *Ctx) *Replay {
 			offs = append(offs, r.Intn(len(input)))
 		}
 	}
-	menu := []string{"unexpected-eof", "closed-pipe", "reset", "custom"}
+	menu := append([]string{"unexpected-eof", "closed-pipe", "reset", "custom"}, simnet.TemporaryNames...)
 	for _, k := range offs {
 		for variant := 0; variant < 3; variant++ {
 			fs := Scenario{Kind: "readfile", Input: input, Reader: "plain", Sched: &simnet.Schedule{Name: "all"},
